@@ -7,4 +7,7 @@ print("|----|---------------------------|------------------------|------|-------
 for sid in sorted(os.listdir(os.path.join(V, "seeded"))):
     m = json.load(open(os.path.join(V, "seeded", sid, "meta.json")))
     for p, r in sorted(m.get("results", {}).items()):
+        if r["outcome"] != "CAUGHT":
+            print("| %s | %s | %s: not caught, by decision (see meta.json) | - | - |" % (sid, m["needs_to_manifest"], p))
+            continue
         print("| %s | %s | %s `%s` | %s | %s |" % (sid, m["needs_to_manifest"], p, r["check"], r["runs_until_caught"], r["minimised_ops"]))
